@@ -67,10 +67,12 @@ theorem inverse_override (e : (Fin n → R) ≃ₗ[R] (Fin n → R)) :
   rw [← LinearMap.toMatrix'_comp]
   simp
 
-/-- linearity is what makes all of the above apply: every operator of the Level-A semantics commutes with
-scalar multiplication (law `homogeneous` of `OpSem`, discharged per kernel), and so does every chain -/
-theorem chain_homogeneous {V} (L : OpSem V) (ops : List Op) (s t : Struct) (h : L.toSem.WT ops s t) (a : Rat) (x : V)
+/-- linearity is what makes all of the above apply: every structurally well-formed operator of the Level-A
+semantics commutes with scalar multiplication (law `homogeneous` of `OpSem`, discharged per kernel), and so does
+every chain of such operators -/
+theorem chain_homogeneous {V} (L : OpSem V) (ops : List Op) (s t : Struct) (hok : ∀ o ∈ ops, StructOK o)
+    (h : L.toSem.WT ops s t) (a : Rat) (x : V)
     (hx : L.mem s x) : L.toSem.app ops (L.smul a x) = L.smul a (L.toSem.app ops x) :=
-  L.app_homogeneous ops s t h a x hx
+  L.app_homogeneous ops s t hok h a x hx
 
 end Furax.C04
